@@ -553,6 +553,9 @@ func (inst *fsInstance) exec(ev *fsEvent, out *fsOut) {
 		out.Reply.Updates = convUpdates(upd)
 	case "Reconfigure":
 		var cfg cfgapi.ResmgrConfig
+		if string(ev.Config) == `"__CURRENT__"` { // re-deliver the configuration in force
+			ev.Config = inst.cfgRaw
+		}
 		cfg, err = parseConfig(inst.policy, ev.Config)
 		if err == nil {
 			err = inst.m.reconfigure(cfg)
